@@ -12,7 +12,7 @@ from . import rules_tile as T
 from . import rules_orient as OR
 from . import rules_more as M
 from . import rules_more2 as M2
-from . import rules_more3 as M3, rules_more4 as M4
+from . import rules_more3 as M3, rules_more4 as M4, rules_more5 as M5
 
 
 class Spec:
@@ -48,6 +48,11 @@ class Spec:
             M4.one_shot_iterator_reuse(repo, col, anchors)
             M4.empty_array_fully_written(repo, col, anchors)
             M4.sibling_role_tokens(repo, col, anchors)
+            M5.cache_key_complete(repo, col, anchors)
+            M5.omitted_forward(repo, col, anchors)
+            M5.index_plus_label_promotion(repo, col, anchors)
+            M5.asarray_alias_inplace(repo, col, anchors)
+            M5.unbuffered_write_unchecked(repo, col, anchors)
             for o in col.obs:
                 ln = None
                 if o.loc and o.loc.rsplit(":", 1)[-1].isdigit():
@@ -135,6 +140,7 @@ UNITS_INFO = [("volume_reader", "nibabel_image_to_info", "vs", 1e6),
        "memory-mapped vs full-load equality"],
       ["NumPy promotion / safe-cast / iinfo tables embedded in rules_dtype"])
 def c01(repo, col):
+    A.check_modules(repo, col, ['_compressed_segmentation'])
     M4.round_clip_in_work_dtype(repo, col)
     M4.minishard_final_before_use(repo, col)
     M3.driver_chain(repo, col, shorts=["volume_reader"])
@@ -250,6 +256,8 @@ def c03(repo, col):
        "the reorder buffer's run-time state)", "gzip payload validity"],
       ["sharded v1 format as published in the Neuroglancer repository"])
 def c04(repo, col):
+    S.protocol_conformance(repo, col)
+    O.flush_chain(repo, col)
     M4.minishard_final_before_use(repo, col)
     M4.lowercase_hex_names(repo, col)
     M3.payload_reaches_storage(repo, col, only=["sharded_file_accessor", "sharded_base"])
@@ -390,6 +398,7 @@ def c07(repo, col):
        "separately proved)", "NumPy uint64 shift semantics for widths >= 64"],
       ["NumPy defines uint64 shifts by >= 64 as 0"])
 def c09(repo, col):
+    M5.cmc_entry_nonneg(repo, col)
     M4.lowercase_hex_names(repo, col, shorts=('sharded_base',))
     B.strict_morton_bound(repo, col)
     B.morton_nonneg(repo, col)
@@ -480,6 +489,7 @@ def c11(repo, col):
        "chunk-name patterns are axis-consistent; options reach FileAccessor"],
       ["last-write-wins over operation histories", "gzip stream validity"])
 def c12(repo, col):
+    M4.delete_guard_excludes_open(repo, col)
     M3.chunk_name_component_order(repo, col)
     M3.payload_reaches_storage(repo, col, only=["file_accessor"])
     M3.gzip_branch_polarity(repo, col)
@@ -510,6 +520,7 @@ def c12(repo, col):
        "flush chain"],
       ["decoded equality of source and destination", "remote sources"])
 def c13(repo, col):
+    S.protocol_conformance(repo, col)
     M4.round_clip_in_work_dtype(repo, col)
     M4.legacy_seek_rebased(repo, col)
     M4.convert_all_chunk_sizes(repo, col)
@@ -555,6 +566,7 @@ def c13(repo, col):
       ["byte equality with local reads", "server behaviours beyond status "
        "and length"])
 def c14(repo, col):
+    M4.sibling_accessors_same_location(repo, col)
     M4.nonempty_range_before_read(repo, col)
     M4.lowercase_hex_names(repo, col)
     M3.seek_before_read(repo, col)
@@ -647,6 +659,8 @@ def c16(repo, col):
        "mm -> nm factor 1e6; fragment link name and JSON shape"],
       ["VTK grammar conformance", "vertex values after arbitrary affines"])
 def c17(repo, col):
+    M5.float_scale_factor(repo, col)
+    B.reduction_with_initial_guard(repo, col)
     M4.no_inplace_on_arguments(repo, col, "mesh", "affine_transform_mesh",
                                ["vertices", "triangles"])
     M3.driver_chain(repo, col, shorts=["scripts.mesh_to_precomputed"])
@@ -678,6 +692,7 @@ def c17(repo, col):
       ["atomicity of plain chunk files (there is none: detection relies on "
        "the decoders, C10)", "behaviour under each errno"])
 def c18(repo, col):
+    M4.delete_guard_excludes_open(repo, col)
     M4.gzip_wrapper_owns_file(repo, col)
     M3.probe_statuses(repo, col)
     M3.driver_chain(repo, col)
@@ -708,6 +723,9 @@ def c18(repo, col):
        "always pass through the codec"],
       ["equality of the two outputs", "idempotence of repeated steps"])
 def c19(repo, col):
+    # the all-in-one command and the separate steps share volume_reader
+    M5.omitted_forward(repo, col, ['volume_reader'])
+    M5.suppressing_context_in_main(repo, col)
     M4.convert_all_chunk_sizes(repo, col)
     M3.driver_chain(repo, col)
     M3.new_dataset_stores_info(repo, col)
@@ -741,6 +759,7 @@ def c19(repo, col):
        "no state shared between calls"],
       ["readable_count's digit / width promise (arithmetic over format())"])
 def c20(repo, col):
+    M5.remainder_any(repo, col)
     M4.readable_count_format_types(repo, col)
     M3.driver_chain(repo, col, shorts=["scripts.scale_stats"])
     M3.stats_bytes_include_channels(repo, col)
